@@ -189,7 +189,7 @@ _EXTRA = {
  "C02": " Added after the seeded changes: (R-FMT-7) a grow-and-replace of a loaded record list keeps every element; (R-TXN-9) the file is rewound before each encode.",
  "C03": " Added after the seeded changes: (R-REL-6) every success return of OuterJoin lies behind the FULL test; (R-ISO-2) inline tables / CTEs are handed out as copies.",
  "C04": " Also (R-PAR-1): the key-generation workers share no buffer.",
- "C05": " Also (R-ISO-4): no store into a cell shared with other views (UPDATE builds new cells).",
+ "C05": " Also (R-ISO-4): no store into a cell shared with other views (UPDATE builds new cells); (R-CNT-2) the per-table counts of multi-table UPDATE / DELETE count distinct records (set size, or a counter guarded by a first-seen test).",
  "C09": " Also (R-CACHE-1): the first update access to a table loaded by a plain SELECT re-reads it under the exclusive lock.",
  "C10": " Added after the seeded changes: (R-SWAP-4) the original descriptor Handler.fp is never written or truncated; (R-TXN-9) rewind before encode.",
  "C12": " Added after the seeded changes: (R-PAR-7) no aggregate / analytic implementation starts goroutines (sequential reductions, no float reassociation).",
